@@ -28,6 +28,11 @@ let handle line =
       let n = List.length w in
       (match bb_recognise w (nat_of_int ((n + 2) * (n + 2))) (nat_of_int (64 * (n + 2))) with
        | None -> "NONE" | Some true -> "T" | Some false -> "F")
+  | ["PARSE"; cps] ->
+      let w = List.map n_of_int (ints cps) in
+      let n = List.length w in
+      (match bb_parse w (nat_of_int (8 * n + 64)) (nat_of_int 64) with
+       | None -> "NONE" | Some None -> "FAIL" | Some (Some _) -> "OK")
   | _ -> "ERR bad request"
 
 let () =
